@@ -32,6 +32,7 @@ type Principal struct {
 	Keys      map[int]Key // keytab style principals and services: etype -> key
 	NoPreauth bool        // overrides policy: this principal never needs pre-authentication
 	derived   map[int]Key
+	Earlier map[int]Key // keys derived under earlier string-to-key parameters (Rekey)
 }
 
 // Policy is what varies between conformant KDCs.
@@ -252,6 +253,21 @@ func (p *Principal) Precompute(realm string, etypes []int) {
 			p.derived[et] = Key{p.Kvno, rk.EncryptionKey{Etype: int32(et), Value: kb}}
 		}
 	}
+}
+
+// Rekey gives a password principal new string-to-key parameters (same password, next key version),
+// as when an administrator raises the iteration count and the account's keys are derived afresh.
+// The keys derived before are remembered as the account's earlier keys.
+func (p *Principal) Rekey(realm string, iter int, etypes []int) {
+	if p.Password == "" {
+		return
+	}
+	p.Precompute(realm, etypes)
+	p.Earlier = p.derived
+	p.derived = nil
+	p.Iter = iter
+	p.Kvno++
+	p.Precompute(realm, etypes)
 }
 
 // KeyFor returns the principal's key for an etype.
@@ -787,6 +803,14 @@ func (k *KDC) issue(a issueArgs) []byte {
 			}
 		case "other-key":
 			replyKey = KeyOf(k.Seed, k.Realm, "stranger", 9, int(replyKey.Etype))
+		case "key-of-earlier-s2kparams":
+			// the reply is sealed under the key the account had before it was re-keyed (same password
+			// and salt, other string-to-key parameters), while the hints name the current parameters
+			if p := k.DB[a.cname.String()]; p != nil {
+				if ek, ok := p.Earlier[int(replyKey.Etype)]; ok {
+					replyKey = ek.Key
+				}
+			}
 		case "other-usage":
 			usage = uint32(pt.Arg)
 		case "enc-tag":
